@@ -204,7 +204,16 @@ def guarded_ps(fn, site_bb, good_edges):
         s = peel(subj)
         if s.kind != "phi":
             continue
-        alts = [peel(k) for k in s.kids if k.kind != "cycle"]
+        alts, seen_, stack_ = [], set(), [s]
+        while stack_:
+            q = peel(stack_.pop())
+            if id(q) in seen_ or q.kind == "cycle":
+                continue
+            seen_.add(id(q))
+            if q.kind == "phi":
+                stack_.extend(q.kids)
+            else:
+                alts.append(q)
         if not alts or not all(a.kind == "agg" and a.d["agg"].get("variant") in ("Some", "None", "Ok", "Err") for a in alts):
             continue
         adt = alts[0].d["agg"].get("adt")
